@@ -104,7 +104,7 @@ def wellFormed (e : Entry) : Bool :=
 def table : List Entry := [
   ⟨k% "Accumulator", 1, ["1", "1"], false, []⟩,
   ⟨k% "Accumulator.assign", 2, ["11"], false, []⟩,
-  ⟨k% "Accumulator.compare", 6, ["==00==", "==00=="], false, []⟩,
+  ⟨k% "Accumulator.compare", 6, ["000000", "000000"], false, []⟩,
   ⟨k% "Accumulator.mul", 1, ["1", "1"], false, []⟩,
   ⟨k% "Accumulator.peek", 1, ["1", "1"], false, []⟩,
   ⟨k% "Accumulator.remainder", 1, ["1", "1"], false, []⟩,
@@ -216,24 +216,24 @@ def table : List Entry := [
   ⟨k% "EllipticFunction.deltaPi3", 1, ["1", "1", "1"], false, []⟩,
   ⟨k% "EllipticFunction.sncndn", 3, ["111"], false, []⟩,
   ⟨k% "GARS.Forward", 1, ["1", "1"], true, []⟩,
-  ⟨k% "GARS.Precision", 1, ["="], false, []⟩,
-  ⟨k% "GeoCoords.CtorLatLon", 17, ["1=1111=111111111=", "=11111=11111111x="], true, []⟩,
-  ⟨k% "GeoCoords.CtorUPSN", 17, ["111=11==1==11=11=", "11=111===1=11=11="], true, []⟩,
-  ⟨k% "GeoCoords.CtorUPSS", 17, ["111=11==1==11=11=", "11=111===1=11=11="], true, []⟩,
-  ⟨k% "GeoCoords.CtorUTMN", 17, ["111=11==1==11=11=", "11=111===1=11=11="], true, []⟩,
-  ⟨k% "GeoCoords.CtorUTMS", 17, ["111=11==1==11=11=", "11=111===1=11=11="], true, []⟩,
+  ⟨k% "GARS.Precision", 1, ["0"], false, []⟩,
+  ⟨k% "GeoCoords.CtorLatLon", 17, ["1=111101111111110", "=11111=11111111x="], true, []⟩,
+  ⟨k% "GeoCoords.CtorUPSN", 17, ["111=11==1==11011=", "11=111===1=11011="], true, []⟩,
+  ⟨k% "GeoCoords.CtorUPSS", 17, ["111=11==1==11011=", "11=111===1=11011="], true, []⟩,
+  ⟨k% "GeoCoords.CtorUTMN", 17, ["111=11==1==11011=", "11=111===1=11011="], true, []⟩,
+  ⟨k% "GeoCoords.CtorUTMS", 17, ["111=11==1==11011=", "11=111===1=11011="], true, []⟩,
   ⟨k% "GeoCoords.LatLon", 9, ["1=11111x1", "=111111x1"], true, []⟩,
-  ⟨k% "GeoCoords.ResetLatLon", 17, ["1=1111=111111111=", "=11111=11111111x="], true, []⟩,
-  ⟨k% "GeoCoords.ResetStrLatLon", 17, ["1=1111=111111111=", "=11111=11111111x="], true, []⟩,
-  ⟨k% "GeoCoords.ResetUPSN", 17, ["111=11==1==11=11=", "11=111===1=11=11="], true, []⟩,
-  ⟨k% "GeoCoords.ResetUPSS", 17, ["111=11==1==11=11=", "11=111===1=11=11="], true, []⟩,
-  ⟨k% "GeoCoords.ResetUTMN", 17, ["111=11==1==11=11=", "11=111===1=11=11="], true, []⟩,
-  ⟨k% "GeoCoords.ResetUTMS", 17, ["111=11==1==11=11=", "11=111===1=11=11="], true, []⟩,
-  ⟨k% "GeoCoords.StrLatLon", 17, ["1=1111=111111111=", "=11111=11111111x="], true, []⟩,
-  ⟨k% "GeoCoords.StrUPSN", 17, ["111=11==1==11=11=", "11=111===1=11=11="], true, []⟩,
-  ⟨k% "GeoCoords.StrUPSS", 17, ["111=11==1==11=11=", "11=111===1=11=11="], true, []⟩,
-  ⟨k% "GeoCoords.StrUTMN", 17, ["111=11==1==11=11=", "11=111===1=11=11="], true, []⟩,
-  ⟨k% "GeoCoords.StrUTMS", 17, ["111=11==1==11=11=", "11=111===1=11=11="], true, []⟩,
+  ⟨k% "GeoCoords.ResetLatLon", 17, ["1=111101111111110", "=11111=11111111x="], true, []⟩,
+  ⟨k% "GeoCoords.ResetStrLatLon", 17, ["1=111101111111110", "=11111=11111111x="], true, []⟩,
+  ⟨k% "GeoCoords.ResetUPSN", 17, ["111=11==1==11011=", "11=111===1=11011="], true, []⟩,
+  ⟨k% "GeoCoords.ResetUPSS", 17, ["111=11==1==11011=", "11=111===1=11011="], true, []⟩,
+  ⟨k% "GeoCoords.ResetUTMN", 17, ["111=11==1==11011=", "11=111===1=11011="], true, []⟩,
+  ⟨k% "GeoCoords.ResetUTMS", 17, ["111=11==1==11011=", "11=111===1=11011="], true, []⟩,
+  ⟨k% "GeoCoords.StrLatLon", 17, ["1=111101111111110", "=11111=11111111x="], true, []⟩,
+  ⟨k% "GeoCoords.StrUPSN", 17, ["111=11==1==11011=", "11=111===1=11011="], true, []⟩,
+  ⟨k% "GeoCoords.StrUPSS", 17, ["111=11==1==11011=", "11=111===1=11011="], true, []⟩,
+  ⟨k% "GeoCoords.StrUTMN", 17, ["111=11==1==11011=", "11=111===1=11011="], true, []⟩,
+  ⟨k% "GeoCoords.StrUTMS", 17, ["111=11==1==11011=", "11=111===1=11011="], true, []⟩,
   ⟨k% "GeoCoords.UTM", 7, ["111=11x", "11=111x"], true, []⟩,
   ⟨k% "Geocentric.Forward", 3, ["111", "11=", "111"], false, []⟩,
   ⟨k% "Geocentric.ForwardM", 12, ["111=11=11=11", "11=111111===", "111========="], false, []⟩,
@@ -334,7 +334,7 @@ def table : List Entry := [
   ⟨k% "Intersect.AllLinesC", 3, ["011", "011", "011", "011", "011", "011", "011", "011", "011"], false, []⟩,
   ⟨k% "Intersect.Closest", 2, ["11", "11", "11", "11", "11", "11"], false, []⟩,
   ⟨k% "Intersect.ClosestLines", 2, ["11", "11", "11", "11", "11", "11"], false, []⟩,
-  ⟨k% "Intersect.ClosestP0", 3, ["11=", "11=", "11=", "11=", "11=", "11=", "11=", "11="], false, []⟩,
+  ⟨k% "Intersect.ClosestP0", 3, ["110", "110", "110", "110", "110", "110", "110", "110"], false, []⟩,
   ⟨k% "Intersect.Dist", 1, ["1", "1", "1", "1"], false, []⟩,
   ⟨k% "Intersect.Next", 2, ["11", "11", "11", "11"], false, []⟩,
   ⟨k% "Intersect.NextLines", 2, ["11", "11", "11", "11"], false, []⟩,
